@@ -154,6 +154,22 @@ CHECKS["C18"] = dict(
     technique=TECH,
 )
 
+CHECKS["C11"] = dict(
+    category="other",
+    text=("BOUNDED, not proved: the recognition of -D/-I/-isystem/-include is done by CPython's argparse and shlex, which no "
+          "contract within reach can verify, so this check evaluates the extraction contract of the statement on the real "
+          "ArgumentParser('gcc').parse_args for every argument vector of <= 2 (quick) / <= 3 (thorough) tokens over a "
+          "catalogue of recognised options (both spellings, awkward values) and unmodelled real compiler flags, plus seeded "
+          "random vectors of 4..12 tokens, each also rendered as a shell-quoted command string. Only the registered option "
+          "table is discharged (syntactic obligations on the real ast). Seven deviations are recorded as known findings."),
+    design_ref="DESIGN.md section 5 C11, section 9",
+    note="A6 argparse/shlex unverified; bound stated in evidence.coverage.bounded; tokens exhibiting recorded findings are run in a separate target so that they cannot mask new failures.",
+    technique="contract on the real function checked up to a stated bound (native), option table by syntactic obligations; deductive proof not applicable to argparse",
+)
+CHECKS["C12"]["text"] += (" parse_args (pass/mode composition, custom actions, implicit options, aliases incl. every alias graph over "
+                          "3 names with a hang timeout) is covered by a bounded native stand-in against an oracle computed from "
+                          "the generator's own description of the configuration.")
+
 NA = {}
 
 DEFAULT_NA = "check not built yet (work in progress; see DESIGN.md section 5 for the plan)"
